@@ -190,7 +190,7 @@ def native(R, tier):
         key = None
         if d['class'] == 'foreign-extra-members' and d.get('level'):
             key = 'unknown-members-dropped:' + re.sub(r'/\d+', '/N', d['level'])
-        ident = key or d['class']
+        ident = key or (d['class'] + ':' + d['level'] if d['class'] in ('key-member-mutation-accepted', 'foreign-key-extra-member-refused') else d['class'])
         if ident in seen: continue
         seen.add(ident)
         before = len(R.violations)
@@ -202,6 +202,7 @@ def native(R, tier):
         if cx['group'] == 'carries-unknown-members':
             lvl = (cx.get('scenario') or {}).get('level')
             if ('unknown-members-dropped:' + str(lvl)) in seen: continue
+            if any(x in seen for x in ('key-member-mutation-accepted:' + str(lvl), 'foreign-key-extra-member-refused:' + str(lvl))): continue
             R.inconclusive.append(f'counterexample for "{cx["obligation"]}" (level {lvl}) was not reproduced by the native level probe')
         elif not res['deviations']:
             R.inconclusive.append(f'counterexample for "{cx["obligation"]}" did not show up in the native mutation sweep: {str(cx.get("scenario"))[:300]}')
